@@ -780,12 +780,30 @@ def _writer_close_with_failing_end_check(fmt):
         shutil.rmtree(d, ignore_errors=True)
 
 
+def _writer_unique_on_what_is_written(case):
+    """IsUnique in a fixed-width CID: the writer judges the values as they are written (padded), so that the output validates again"""
+    from cutplace import interface, validio, errors
+    values = case
+    cid_text = "d,format,fixed\nd,line delimiter,lf\nf,a,,x,3\nf,n,,,1,Integer\nc,u,IsUnique,a\n"
+    out = io.StringIO(); w = validio.Writer(interface.create_cid_from_string(cid_text), out); written = []
+    for i, v in enumerate(values):
+        try: w.write_row([v, str(i % 10)]); written.append(v)
+        except errors.DataError: pass
+    w.close()
+    try: back = list(validio.rows(interface.create_cid_from_string(cid_text), io.StringIO(out.getvalue())))
+    except errors.DataError as e: return {"expected": "the output of the writer validates again (rows written: %r)" % written, "observed": "%s (output %r)" % (e, out.getvalue())}
+    want = [[v.ljust(3), str(i % 10)] for i, v in enumerate(values) if v in written and values.index(v) == i]
+    return None if len(back) == len(written) else {"expected": "%d rows read back" % len(written), "observed": back}
+
+
 def unit_writer_sweep():
     def run(ctx):
         o = WriterOracle(); f = WriterFileOracle()
         limit = 10**9 if ctx.thorough else o.quick_cases
         return [sweep("C14/sweep/write then read back", itertools.islice(o.cases(ctx), limit), o.check, "bounded", o.bound, describe=o.describe, function="validio.Writer + rowio writers + validio.rows", unit="C14.sweep"),
                 sweep("C14/sweep/write to a file in the CID's encoding, read the file back", f.cases(ctx), f.check, "bounded", f.bound, describe=f.describe, function="validio.Writer + rowio writers + validio.rows", unit="C14.sweep"),
+                sweep("C14/sweep/uniqueness is judged on the values as they are written (fixed width: padded)", [c for n_ in (2, 3) for c in itertools.product(["ab", "ab ", "a", "a  ", "abc", ""], repeat=n_)], _writer_unique_on_what_is_written, "bounded",
+                      "all sequences of 2-3 values over {ab, 'ab ', a, 'a  ', abc, ''} in a 3-wide IsUnique field", describe=lambda c: {"values": list(c)}, function="validio.Writer.write_row", unit="C14.sweep"),
                 sweep("C14/sweep/a failing end-of-data check at close() still leaves the accepted rows in a closed file", ["delimited", "fixed"], _writer_close_with_failing_end_check, "bounded", "2 formats, 3 rows, DistinctCount failing at close",
                       describe=lambda c: {"format": c}, function="validio.Writer.close", unit="C14.sweep")]
     return NativeUnit("C14.sweep", "bounded sweep: Writer emits exactly the accepted rows, nothing for rejected ones, output validates again (incl. after an earlier read with the same CID)", ["C14", "C08"], run, kind="bounded")
